@@ -27,7 +27,9 @@ TECHNIQUE = ("metamorphic comparison of real parser executions (whole feed vs ev
              "plus ground truth from the message generator")
 RULE = ("seeded well-formed requests/responses and pipelined sequences of 1-4 (Content-Length, chunked with extensions and "
         "trailers, close-delimited, bodiless; each message uniformly CRLF or uniformly bare-LF in head and trailer lines; "
-        "hostile bodies with CR, LF, blank-line, last-chunk and start-line look-alikes), total size <= 2 KiB quick / "
+        "hostile bodies with CR, LF, blank-line, last-chunk and start-line look-alikes; responses preceded by one or two "
+        "'100 Continue' interim responses with 0-2 header lines: a fixed schedule of 72 shapes = interim count x interim "
+        "headers x eol x final framing x alone/pipelined, plus about 1 random response in 6), total size <= 2 KiB quick / "
         "16 KiB thorough; each fed whole and in every 2-piece split, all-1-byte, random k-cuts and CR|LF cuts. "
         "Non-trivial = the whole feed ended every message of the sequence and at least one split inside a head and one "
         "inside a body were compared; distinct = by (kind, per message: framing, eol, version, persistence, header "
@@ -39,7 +41,9 @@ ASSUMPTIONS = [
     "the parsers are driven as Client.serviceResponse / Server.serviceReqs drive them: append to .msg, parse() until no "
     "progress, makeParser() after each ended message; close-delimited responses end with close() then parse()",
     "persistence ground truth: 1.1 persistent unless 'Connection: close' or close-delimited; 1.0 only with 'Connection: keep-alive'",
-    "interim 100-continue responses and event streams are not generated here (C16 / C15)",
+    "an interim '100 Continue' response (status line, 0-2 header lines, blank line, same eol) is skipped by the client: the "
+    "ground truth of such a message is the final response only",
+    "event streams are not generated here (C15)",
 ]
 LEVEL_TEXT = ("Every generated message sequence is parsed by the real code once whole and once per partition; the 2-piece "
               "partitions are complete for every sequence, longer partitions are sampled. Held on the sequences and "
@@ -51,7 +55,9 @@ BUDGET_S = {"quick": 25, "thorough": 450}
 REQUIRE = {"feeds": 20000, "two_split_partitions": 10000, "one_byte_partitions": 100, "random_partitions": 500,
            "crlf_cut_partitions": 100, "messages_ended_whole": 300, "truth_checks": 300,
            "framing:length": 40, "framing:chunked": 40, "framing:close": 10, "framing:none": 10,
-           "eol:lf": 40, "eol:crlf": 40, "pipelined_sequences": 40, "cut_between_cr_and_lf": 500}
+           "eol:lf": 40, "eol:crlf": 40, "pipelined_sequences": 40, "cut_between_cr_and_lf": 500,
+           "responses_with_interim": 72, "interim_with_headers": 30, "two_splits_inside_interim_block": 1000,
+           "interim_then:length": 10, "interim_then:chunked": 10, "interim_then:close": 10}
 EXHAUSTIVE = {"quick": "for every generated sequence: all partitions of its bytes into two reads",
               "thorough": "for every generated sequence: all partitions of its bytes into two reads"}
 
@@ -67,9 +73,47 @@ def _probe_case():
     return {"kind": "request", "origin": "design-probe", "msgs": [d], "rand": [], "req_method": "GET"}
 
 
+def _plan(rng, seq, tier):
+    raw = b"".join(G.s2b(d["raw"]) for d in seq)
+    n = len(raw)
+    rand = []
+    for _ in range(6 if tier == "quick" else 12):
+        rand.append(G.random_cuts(rng, n, rng.choice([2, 3, 4, 8, 16, n // 3 + 1])))
+    cl = G.crlf_cuts(raw)
+    for _ in range(3):
+        if cl:
+            sub = set(rng.sample(cl, rng.randint(1, len(cl))))
+            sub |= set(G.random_cuts(rng, n, rng.randint(0, 5)))
+            rand.append(sorted(sub))
+    return rand
+
+
+def interim_schedule():
+    """the fixed (seed independent) schedule of responses preceded by 100-Continue interim responses"""
+    k = 0
+    for count in (1, 2):
+        for nh in (0, 1, 2):
+            for eol in ("crlf", "lf"):
+                for framing in ("length", "chunked", "close"):
+                    for pipelined in (False, True):
+                        yield k, count, nh, eol, framing, pipelined
+                        k += 1
+
+
 def cases(tier, seed, shard, nshards):
     if shard == 0:
         yield _probe_case()
+    for k, count, nh, eol, framing, pipelined in interim_schedule():
+        if k % nshards != shard:
+            continue
+        r = random.Random(f"C13:interim:{k}")
+        o = dict(eol=eol, maxbody=40, interim=count, interim_headers=nh, req_method="GET")
+        seq = []
+        if pipelined:   # a persistent self-delimiting response first, the last one also has an interim response
+            seq.append(G.gen_response(r, framing=r.choice(["length", "chunked"]), version="1.1", persist=True,
+                                      **dict(o, interim=r.choice([0, 1]))))
+        seq.append(G.gen_response(r, framing=framing, version="1.1", **o))
+        yield {"kind": "response", "origin": "interim-schedule", "msgs": seq, "rand": _plan(r, seq, tier), "req_method": "GET"}
     rng = random.Random(f"{seed}:C13:{shard}")
     ncases = (144 if tier == "quick" else 3200) // nshards * 4
     maxtotal = 2048 if tier == "quick" else 16384
@@ -81,19 +125,8 @@ def cases(tier, seed, shard, nshards):
         else:
             maxbody = 24 if r < 0.5 else (200 if r < 0.85 else (2000 if r < 0.97 else 12000))
         eol = rng.choice(["crlf", "crlf", "lf", "lf", "mixed"])
-        seq = G.gen_sequence(rng, kind, maxtotal=maxtotal, maxbody=maxbody, eol=eol)
-        raw = b"".join(G.s2b(d["raw"]) for d in seq)[:]
-        n = len(raw)
-        rand = []
-        for _ in range(6 if tier == "quick" else 12):
-            rand.append(G.random_cuts(rng, n, rng.choice([2, 3, 4, 8, 16, n // 3 + 1])))
-        cl = G.crlf_cuts(raw)
-        for _ in range(3):
-            if cl:
-                sub = set(rng.sample(cl, rng.randint(1, len(cl))))
-                sub |= set(G.random_cuts(rng, n, rng.randint(0, 5)))
-                rand.append(sorted(sub))
-        yield {"kind": kind, "origin": "gen", "msgs": seq, "rand": rand,
+        seq = G.gen_sequence(rng, kind, maxtotal=maxtotal, maxbody=maxbody, eol=eol, interim="random")
+        yield {"kind": kind, "origin": "gen", "msgs": seq, "rand": _plan(rng, seq, tier),
                "req_method": seq[0].get("req_method", "GET")}
 
 
@@ -209,6 +242,19 @@ def run_case(case, ctx):
         if d["framing"] == "chunked":
             ctx.count("chunked_with_extensions" if d["parms"] else "chunked_without_extensions")
             ctx.count("chunked_with_trailers" if d["trailers"] else "chunked_without_trailers")
+        if d.get("interim"):
+            ctx.count("responses_with_interim")
+            ctx.count("interim_then:" + d["framing"])
+            if any(hs for _, hs in d["interim"]):
+                ctx.count("interim_with_headers")
+            if len(d["interim"]) > 1:
+                ctx.count("responses_with_two_interim")
+    # every offset strictly inside an interim block is a 2-split position below (exhaustive)
+    pos = 0
+    for d in descs:
+        ib = len(G.interim_bytes(d)) if d["kind"] == "response" else 0
+        ctx.count("two_splits_inside_interim_block", max(0, min(ib, n - 1 - pos)))
+        pos += len(d["raw"])
     truth_ok = True
     if whole["raised"]:
         truth_ok = False
@@ -273,7 +319,8 @@ def run_case(case, ctx):
             try_partition(cuts, "crlf_cut_partitions" if cs.issuperset(cuts) else "random_partitions")
 
     sig = [kind, [[d["framing"], d["eol"], d["version"], d["persist"], len(d["headers"]) > 1, body_class(d),
-                   len(d.get("chunks", [])), bool(d.get("parms")), bool(d.get("trailers"))] for d in descs]]
+                   len(d.get("chunks", [])), bool(d.get("parms")), bool(d.get("trailers")),
+                   [len(hs) for _, hs in d.get("interim") or []]] for d in descs]]
     ctx.seen("sequence_shapes", sig)
     if truth_ok and n > 1:
         ctx.nontrivial(sig)
